@@ -12,6 +12,8 @@ pub struct SetSide<P: TP> {
     pub set: PrefixSet<P>,
     pub model: Model,
     pub drift: i64,
+    /// only insert, remove, retain, clear, from_iter were used
+    pub canonical: bool,
 }
 
 fn rs<P: TP>(env: &Env, p: PRef) -> (P, Raw) {
@@ -57,6 +59,25 @@ pub fn observe_set<P: TP>(s: &mut SetSide<P>, env: &mut Env) -> R {
         ensure!(d == s.drift, "C04", "C04:len", "step {step}: PrefixSet::len() = {} but iteration yields {} entries (tolerated drift {})", s.set.len(), n, s.drift);
         if s.drift == 0 {
             ensure!(s.set.is_empty() == (n == 0), "C04", "C04:is_empty", "step {step}: PrefixSet::is_empty() = {} with {} entries", s.set.is_empty(), n);
+        }
+    }
+    if f.has(15) {
+        env.cur_op = "set.view";
+        let mut budget = 100_000usize;
+        let shape = crate::observe::walk((&s.set).view(), &mut budget, 0)?;
+        if let Err(e) = crate::model::shape_wellformed(&shape, P::W) {
+            return fail("C15", "C15:wellformed", format!("step {step}: set: {e} in shape {}", shape.show()));
+        }
+        if s.canonical {
+            let keys: std::collections::BTreeSet<Key> = s.model.m.keys().copied().collect();
+            let c = crate::model::canonical_shape(&keys);
+            let mut nodes = Vec::new();
+            shape.nodes(&mut nodes);
+            let valued: std::collections::BTreeSet<Key> = nodes.iter().filter(|n| n.1).map(|n| n.0).collect();
+            if valued == keys {
+                ensure!(c == shape, "C15", "C15:canonical", "step {step}: PrefixSet shape {} differs from the canonical shape {} of its prefixes (only insert/remove/retain/clear were used)", shape.show(), c.show());
+                env.ev("shape_canonical_checked");
+            }
         }
     }
     // baseline contents
@@ -214,6 +235,7 @@ pub fn apply_set<P: TP>(s: &mut SetSide<P>, op: &Op, env: &mut Env) -> R<bool> {
                 env.ev("removed_hit");
                 env.ev("leftover_created");
                 env.ev("keep_tree_hit");
+                s.canonical = false;
             }
         }
         Op::RemoveChildren { p, .. } => {
@@ -226,6 +248,9 @@ pub fn apply_set<P: TP>(s: &mut SetSide<P>, op: &Op, env: &mut Env) -> R<bool> {
             }
             if r.len == 0 {
                 s.drift = 0;
+                s.canonical = true;
+            } else {
+                s.canonical = false;
             }
             if !gone.is_empty() {
                 env.ev("removed_hit");
@@ -272,6 +297,7 @@ pub fn apply_set<P: TP>(s: &mut SetSide<P>, op: &Op, env: &mut Env) -> R<bool> {
             s.set.clear();
             s.model.m.clear();
             s.drift = 0;
+            s.canonical = true;
             env.ev("clear");
         }
         Op::FromIter { items, .. } => {
@@ -286,6 +312,7 @@ pub fn apply_set<P: TP>(s: &mut SetSide<P>, op: &Op, env: &mut Env) -> R<bool> {
             s.set = PrefixSet::from_iter(ps);
             s.model = model;
             s.drift = 0;
+            s.canonical = true;
             env.ev("from_iter");
         }
         Op::CloneSwap { .. } | Op::Collect { .. } => {
@@ -333,6 +360,7 @@ pub fn apply_set<P: TP>(s: &mut SetSide<P>, op: &Op, env: &mut Env) -> R<bool> {
                     ensure!(got == present, "C01", "C01:set.view_mut.remove:return", "step {step}: TrieViewMut::remove on a set view at {:?} returned {got}, present: {present}", vk);
                     if present {
                         s.model.remove(vk);
+                        s.canonical = false;
                         env.ev("removed_hit");
                         env.ev("leftover_created");
                         env.ev("view_remove_hit");
@@ -356,6 +384,7 @@ pub fn run_set_history<P: TP>(ops: &[Op], env: &mut Env) -> R<SetSide<P>> {
         set: PrefixSet::new(),
         model: Model::new(),
         drift: 0,
+        canonical: true,
     };
     for (i, op) in ops.iter().enumerate() {
         env.step = i;
